@@ -890,6 +890,17 @@ static LAST_PANIC_LOC: Mutex<String> = Mutex::new(String::new());
 /// bumped before every call of a worker; watched by the worker's own watchdog thread
 static CALLS: std::sync::atomic::AtomicU64 = std::sync::atomic::AtomicU64::new(0);
 
+/// CPU time (user + system) of the calling thread in ms, from /proc/thread-self/stat (USER_HZ = 100).
+/// The time budget is judged on CPU time so that a loaded machine does not produce false alarms.
+fn thread_cpu_ms() -> Option<u128> {
+    let s = fs::read_to_string("/proc/thread-self/stat").ok()?;
+    let rest = &s[s.rfind(')')? + 1..];
+    let mut it = rest.split_whitespace();
+    let utime: u128 = it.nth(11)?.parse().ok()?;
+    let stime: u128 = it.next()?.parse().ok()?;
+    Some((utime + stime) * 10)
+}
+
 fn parent_pid() -> Option<u64> {
     // /proc/self/stat: `pid (comm) state ppid …`
     let s = fs::read_to_string("/proc/self/stat").ok()?;
@@ -926,6 +937,8 @@ struct Rec {
     trace: Option<fs::File>,
     beat: Option<fs::File>,
     last_beat: Instant,
+    cpu_cached: Option<u128>,
+    cpu_read_at: Instant,
     apis: BTreeMap<&'static str, u64>,
     /// (api, class, detail)
     fails: Vec<(String, String, String)>,
@@ -959,8 +972,21 @@ impl Rec {
             let _ = f.flush();
         }
         let t = Instant::now();
+        // CPU clock of this thread, re-read at most every 50 ms of wall time
+        if self.cpu_read_at.elapsed() > Duration::from_millis(50) {
+            self.cpu_cached = thread_cpu_ms();
+            self.cpu_read_at = t;
+        }
         let r = std::panic::catch_unwind(std::panic::AssertUnwindSafe(f));
-        let ms = t.elapsed().as_millis();
+        let wall = t.elapsed().as_millis();
+        let ms = if wall > SLOW_CALL_MS {
+            match (self.cpu_cached, thread_cpu_ms()) {
+                (Some(a), Some(b)) => b.saturating_sub(a).min(wall),
+                _ => wall,
+            }
+        } else {
+            wall
+        };
         self.max_call_ms = self.max_call_ms.max(ms);
         if ms > SLOW_CALL_MS && self.fails.len() < 8 {
             // narrow classifiers of the two known findings about the time budget
@@ -972,7 +998,7 @@ impl Rec {
             } else {
                 ""
             };
-            self.fails.push((api.to_owned(), class.to_owned(), format!("slow: {ms} ms (budget {SLOW_CALL_MS} ms) [{}]", self.ctx)));
+            self.fails.push((api.to_owned(), class.to_owned(), format!("slow: {ms} ms CPU, {wall} ms wall (budget {SLOW_CALL_MS} ms) [{}]", self.ctx)));
         }
         match r {
             Ok(v) => Some(v),
@@ -1402,7 +1428,7 @@ fn child_main(seed: u64, domain: Domain, lo: usize, hi: usize, file: &Path, n_se
         let t0 = Instant::now();
         let case = gen_case(seed, domain, idx);
         let trace = if hi == lo + 1 { out.try_clone().ok() } else { None };
-        let mut rec = Rec { trace, beat: out.try_clone().ok(), last_beat: Instant::now(), apis: BTreeMap::new(), fails: Vec::new(), max_call_ms: 0, ctx: String::new(), taiko_irregular: false, heavy: false, mania_n: 0 };
+        let mut rec = Rec { trace, beat: out.try_clone().ok(), last_beat: Instant::now(), cpu_cached: thread_cpu_ms(), cpu_read_at: Instant::now(), apis: BTreeMap::new(), fails: Vec::new(), max_call_ms: 0, ctx: String::new(), taiko_irregular: false, heavy: false, mania_n: 0 };
         rec.ctx = "decode".into();
         let decoded = rec.call("decode", || Beatmap::from_bytes(&case.bytes));
         let mut stage = "decode-panicked";
